@@ -70,6 +70,14 @@ def chain(patterns, provider):
 
 
 EXTRA = [
+    # an unqualified column defined by TWO tables created earlier (JOIN ... USING): both chains run end to end
+    ("create table s.t1 as select id, a from s.t0; create table s.t2 as select id, b from s.u0; insert into s.t3 select id, a, b from s.t1 join s.t2 using (id)", None,
+     [("s.t0.id", "s.t3.id"), ("s.u0.id", "s.t3.id"), ("s.t0.a", "s.t3.a"), ("s.u0.b", "s.t3.b")]),
+    ("create table s.t1 as select id, a from s.t0; create table s.t2 as select id, b from s.u0; insert into s.t3 select id, a, b from s.t1 join s.t2 using (id)", {"zz.other": ["q"]},
+     [("s.t0.id", "s.t3.id"), ("s.u0.id", "s.t3.id"), ("s.t0.a", "s.t3.a"), ("s.u0.b", "s.t3.b")]),
+    # the middle table is defined twice with different columns: later statements see the LATEST definition
+    ("create table s.t1 as select a from s.t0; create or replace table s.t1 as select b, c from s.u0; insert into s.t2 select * from s.t1", {"zz.other": ["q"]},
+     [("s.u0.b", "s.t2.b"), ("s.u0.c", "s.t2.c"), ("s.t0.a", "s.t1.a")]),
     # diamond: both branches meet again
     ("insert into s.t1 select a, b from s.t0; insert into s.t2 select a as x from s.t1; insert into s.t3 select b as y from s.t1; insert into s.t4 select t2.x, t3.y from s.t2 join s.t3 on t2.x = t3.y", None,
      [("s.t0.a", "s.t4.x"), ("s.t0.b", "s.t4.y")]),
